@@ -29,7 +29,7 @@ impl ItemSourceKind {
                 quote_spanned!(span=> (self.#member))
             }
             ItemSourceKind::Enum => {
-                let ident = field.make_ident("_self");
+                let ident = field.make_ident("__self");
                 quote_spanned!(span=> (*#ident))
             }
         }
@@ -39,10 +39,10 @@ impl ItemSourceKind {
         match self {
             ItemSourceKind::Struct => {
                 let member = field.member();
-                quote_spanned!(span=> (this.#member))
+                quote_spanned!(span=> (__this.#member))
             }
             ItemSourceKind::Enum => {
-                let ident = field.make_ident("_this");
+                let ident = field.make_ident("__this");
                 quote_spanned!(span=> (*#ident))
             }
         }
@@ -52,10 +52,10 @@ impl ItemSourceKind {
         match self {
             ItemSourceKind::Struct => {
                 let member = field.member();
-                quote_spanned!(span=> (other.#member))
+                quote_spanned!(span=> (__other.#member))
             }
             ItemSourceKind::Enum => {
-                let ident = field.make_ident("_other");
+                let ident = field.make_ident("__other");
                 quote_spanned!(span=> (*#ident))
             }
         }
@@ -145,7 +145,7 @@ fn build_compare_op(
                 const _: () = {
                     #[allow(clippy::double_parens)]
                     #[allow(unused_parens)]
-                    fn _f #impl_g (this: &#this_ty) #wheres {
+                    fn __f #impl_g (__this: &#this_ty) #wheres {
                         #body
                     }
                 };
@@ -212,12 +212,12 @@ fn build_partial_eq_body(
             for variant in variants {
                 let use_bounds = variant.hattrs.push_bounds_to(use_bounds, kind, wcb);
                 let body = build_from_fields(&variant.fields, use_bounds, wcb)?;
-                let pat_this = variant.make_pat("_self");
-                let pat_other = variant.make_pat("_other");
+                let pat_this = variant.make_pat("__self");
+                let pat_other = variant.make_pat("__other");
                 arms.push(quote!((#pat_this, #pat_other) => { #body }))
             }
             quote! {
-                match (self, other) {
+                match (self, __other) {
                     #(#arms)*
                     _ => false,
                 }
@@ -225,7 +225,7 @@ fn build_partial_eq_body(
         }
     };
     Ok(quote! {
-        fn eq(&self, other: &Self) -> bool {
+        fn eq(&self, __other: &Self) -> ::core::primitive::bool {
             #body
         }
     })
@@ -247,8 +247,8 @@ fn build_partial_eq_expr(
     let build_expr_by_eq = |by: &Expr| {
         quote! {
             {
-                fn #fn_ident<__T: ?::core::marker::Sized>(this: &__T, other: &__T, eq: impl ::core::ops::Fn(&__T, &__T) -> bool) -> bool {
-                    eq(this, other)
+                fn #fn_ident<__T: ?::core::marker::Sized>(__this: &__T, __other: &__T, __f: impl ::core::ops::Fn(&__T, &__T) -> ::core::primitive::bool) -> ::core::primitive::bool {
+                    __f(__this, __other)
                 }
                 #fn_ident(&#this, &#other, #by)
             }
@@ -274,8 +274,8 @@ fn build_partial_eq_expr(
     if let Some(by) = &cmp.partial_ord.by {
         return Ok(quote! {
             {
-                fn #fn_ident<__T: ?::core::marker::Sized>(this: &__T, other: &__T, partial_cmp: impl ::core::ops::Fn(&__T, &__T) -> ::core::option::Option<::core::cmp::Ordering>) -> bool {
-                    partial_cmp(this, other) == ::core::option::Option::Some(::core::cmp::Ordering::Equal)
+                fn #fn_ident<__T: ?::core::marker::Sized>(__this: &__T, __other: &__T, __f: impl ::core::ops::Fn(&__T, &__T) -> ::core::option::Option<::core::cmp::Ordering>) -> ::core::primitive::bool {
+                    __f(__this, __other) == ::core::option::Option::Some(::core::cmp::Ordering::Equal)
                 }
                 #fn_ident(&#this, &#other, #by)
             }
@@ -289,8 +289,8 @@ fn build_partial_eq_expr(
     if let Some(by) = &field.hattrs.cmp.ord.by {
         return Ok(quote! {
             {
-                fn #fn_ident<__T: ?::core::marker::Sized>(this: &__T, other: &__T, cmp: impl ::core::ops::Fn(&__T, &__T) -> ::core::cmp::Ordering) -> bool {
-                    cmp(this, other) == ::core::cmp::Ordering::Equal
+                fn #fn_ident<__T: ?::core::marker::Sized>(__this: &__T, __other: &__T, __f: impl ::core::ops::Fn(&__T, &__T) -> ::core::cmp::Ordering) -> ::core::primitive::bool {
+                    __f(__this, __other) == ::core::cmp::Ordering::Equal
                 }
                 #fn_ident(&#this, &#other, #by)
             }
@@ -362,11 +362,11 @@ fn build_eq_body(
             for variant in variants {
                 let use_bounds = variant.hattrs.push_bounds_to(use_bounds, kind, wcb);
                 let body = build_from_fields(&variant.fields, use_bounds, wcb)?;
-                let pat_this = variant.make_pat_with_self_path("_this", source.ident());
+                let pat_this = variant.make_pat_with_self_path("__this", source.ident());
                 arms.push(quote!(#pat_this => { #body }));
             }
             Ok(quote! {
-                match this {
+                match __this {
                     #(#arms)*
                     _ => { }
                 }
@@ -450,7 +450,7 @@ fn build_partial_ord_body(
             body.extend(quote! {
                 match #expr {
                     ::core::option::Option::Some(::core::cmp::Ordering::Equal) => {}
-                    o => return o,
+                    __o => return __o,
                 }
             });
             use_bounds = field
@@ -472,24 +472,24 @@ fn build_partial_ord_body(
             for variant in variants {
                 let use_bounds = variant.hattrs.push_bounds_to(use_bounds, kind, wcb);
                 let body = build_from_fields(&variant.fields, use_bounds, wcb)?;
-                let pat_this = variant.make_pat("_self");
-                let pat_other = variant.make_pat("_other");
+                let pat_this = variant.make_pat("__self");
+                let pat_other = variant.make_pat("__other");
                 arms.push(quote!((#pat_this, #pat_other) => { #body }));
             }
             let to_index_fn = build_to_index_fn(variants);
             quote! {
-                match (self, other) {
+                match (self, __other) {
                     #(#arms)*
-                    (this, other) => {
+                    (__this, __other) => {
                         #to_index_fn
-                        ::core::cmp::PartialOrd::partial_cmp(&to_index(this), &to_index(other))
+                        ::core::cmp::PartialOrd::partial_cmp(&__to_index(__this), &__to_index(__other))
                     },
                 }
             }
         }
     };
     Ok(quote! {
-        fn partial_cmp(&self, other: &Self) -> ::core::option::Option<::core::cmp::Ordering> {
+        fn partial_cmp(&self, __other: &Self) -> ::core::option::Option<::core::cmp::Ordering> {
             #body
         }
     })
@@ -512,11 +512,11 @@ fn build_partial_ord_expr(
         return Ok(quote! {
             {
                 fn #fn_ident<__T: ?::core::marker::Sized>(
-                    this: &__T,
-                    other: &__T,
-                    partial_cmp: impl ::core::ops::Fn(&__T, &__T) -> ::core::option::Option<::core::cmp::Ordering>)
+                    __this: &__T,
+                    __other: &__T,
+                    __f: impl ::core::ops::Fn(&__T, &__T) -> ::core::option::Option<::core::cmp::Ordering>)
                  -> ::core::option::Option<::core::cmp::Ordering> {
-                    partial_cmp(this, other)
+                    __f(__this, __other)
                 }
                 #fn_ident(&#this, &#other, #by)
             }
@@ -531,11 +531,11 @@ fn build_partial_ord_expr(
         return Ok(quote! {
             {
                 fn #fn_ident<__T: ?::core::marker::Sized>(
-                    this: &__T,
-                    other: &__T,
-                    cmp: impl ::core::ops::Fn(&__T, &__T) -> ::core::cmp::Ordering)
+                    __this: &__T,
+                    __other: &__T,
+                    __f: impl ::core::ops::Fn(&__T, &__T) -> ::core::cmp::Ordering)
                  -> ::core::option::Option<::core::cmp::Ordering> {
-                    ::core::option::Option::Some(cmp(this, other))
+                    ::core::option::Option::Some(__f(__this, __other))
                 }
                 #fn_ident(&#this, &#other, #by)
             }
@@ -588,7 +588,7 @@ fn build_ord_body(
             body.extend(quote! {
                 match #expr {
                     ::core::cmp::Ordering::Equal => {}
-                    o => return o,
+                    __o => return __o,
                 }
             });
             use_bounds = field
@@ -611,24 +611,24 @@ fn build_ord_body(
             for variant in variants {
                 let use_bounds = variant.hattrs.push_bounds_to(use_bounds, kind, wcb);
                 let body = build_from_fields(&variant.fields, use_bounds, wcb)?;
-                let pat_this = variant.make_pat("_self");
-                let pat_other = variant.make_pat("_other");
+                let pat_this = variant.make_pat("__self");
+                let pat_other = variant.make_pat("__other");
                 arms.push(quote!((#pat_this, #pat_other) => { #body }));
             }
             let to_index_fn = build_to_index_fn(variants);
             quote! {
-                match (self, other) {
+                match (self, __other) {
                     #(#arms)*
-                    (this, other) => {
+                    (__this, __other) => {
                         #to_index_fn
-                        ::core::cmp::Ord::cmp(&to_index(this), &to_index(other))
+                        ::core::cmp::Ord::cmp(&__to_index(__this), &__to_index(__other))
                     },
                 }
             }
         }
     };
     Ok(quote! {
-        fn cmp(&self, other: &Self) -> ::core::cmp::Ordering {
+        fn cmp(&self, __other: &Self) -> ::core::cmp::Ordering {
             #body
         }
     })
@@ -651,11 +651,11 @@ fn build_ord_expr(
         return Ok(quote! {
             {
                 fn #fn_ident<__T: ?::core::marker::Sized>(
-                    this: &__T,
-                    other: &__T,
-                    cmp: impl ::core::ops::Fn(&__T, &__T) -> ::core::cmp::Ordering)
+                    __this: &__T,
+                    __other: &__T,
+                    __f: impl ::core::ops::Fn(&__T, &__T) -> ::core::cmp::Ordering)
                  -> ::core::cmp::Ordering {
-                    cmp(this, other)
+                    __f(__this, __other)
                 }
                 #fn_ident(&#this, &#other, #by)
             }
@@ -715,19 +715,19 @@ fn build_hash_body(
             for variant in variants {
                 let use_bounds = variant.hattrs.push_bounds_to(use_bounds, kind, wcb);
                 let body = build_from_fields(&variant.fields, use_bounds, wcb)?;
-                let pat_self = variant.make_pat("_self");
+                let pat_self = variant.make_pat("__self");
                 arms.push(quote!(#pat_self => { #body }));
             }
             quote! {
                 match self {
                     #(#arms)*
-                    _ => unreachable!(),
+                    _ => ::core::unreachable!(),
                 }
             }
         }
     };
     Ok(quote! {
-        fn hash<H: ::core::hash::Hasher>(&self, state: &mut H) {
+        fn hash<__H: ::core::hash::Hasher>(&self, __state: &mut __H) {
             #body
         }
     })
@@ -749,12 +749,12 @@ fn build_hash_expr(
         return Ok(quote! {
             {
                 fn #fn_ident<__T: ?::core::marker::Sized, __H: ::core::hash::Hasher>(
-                    this: &__T,
-                    state: &mut __H,
-                    hash: impl ::core::ops::Fn(&__T, &mut __H)) {
-                    hash(this, state)
+                    __this: &__T,
+                    __state: &mut __H,
+                    __f: impl ::core::ops::Fn(&__T, &mut __H)) {
+                    __f(__this, __state)
                 }
-                #fn_ident(&#this, state, #by)
+                #fn_ident(&#this, __state, #by)
             }
         });
     }
@@ -786,7 +786,7 @@ fn build_hash_expr(
     }
 
     *field_used = true;
-    Ok(quote_spanned!(field.span()=> ::core::hash::Hash::hash(&(#this), state);))
+    Ok(quote_spanned!(field.span()=> ::core::hash::Hash::hash(&(#this), __state);))
 }
 
 pub(super) struct HelperAttributesForCompareOp {
@@ -1109,7 +1109,7 @@ impl Template {
 
     fn build_hash_stmt(&self, this: TokenStream) -> TokenStream {
         let this = self.apply(this);
-        quote_spanned!(this.span()=> ::core::hash::Hash::hash(&(#this), state);)
+        quote_spanned!(this.span()=> ::core::hash::Hash::hash(&(#this), __state);)
     }
 }
 fn build_to_index_fn(variants: &[VariantEntry]) -> TokenStream {
@@ -1119,10 +1119,10 @@ fn build_to_index_fn(variants: &[VariantEntry]) -> TokenStream {
         arms.push(quote!((#pat) => #index,));
     }
     quote! {
-        let to_index = |this: &Self| -> usize {
-            match this {
+        let __to_index = |__this: &Self| -> ::core::primitive::usize {
+            match __this {
                 #(#arms)*
-                _ => unreachable!(),
+                _ => ::core::unreachable!(),
             }
         };
     }
@@ -1130,8 +1130,8 @@ fn build_to_index_fn(variants: &[VariantEntry]) -> TokenStream {
 
 fn build_eq_checker(this: TokenStream) -> TokenStream {
     quote_spanned!(this.span()=>{
-        fn _eq<T: Eq + ?Sized>(_this: &T) { }
-        _eq(&(#this))
+        fn __eq<__T: ::core::cmp::Eq + ?::core::marker::Sized>(_: &__T) { }
+        __eq(&(#this))
     })
 }
 
